@@ -219,7 +219,11 @@ pub fn gen_noise(dna: &mut Dna) -> (Vec<u8>, String) {
 
 fn gen_valid(dna: &mut Dna, sizes: &[u32; 4], want_syn: bool) -> StreamCase {
     if want_syn {
-        let s = gen_syn(dna, &SynOpts::default());
+        let mut so = SynOpts::default();
+        if sizes[3] == 0 {
+            so.max_plain = if sizes[2] <= 5 { 3_000 } else { 45_000 };
+        }
+        let s = gen_syn(dna, &so);
         let mut labels: Vec<String> = s.features.labels().iter().map(|x| x.to_string()).collect();
         labels.push(format!("syn:mode-{}", s.features.mode));
         StreamCase {
